@@ -4,6 +4,7 @@ Monkey's Audio (mutagen/monkeysaudio.py `MonkeysAudioInfo`), both header generat
 Property theorems only; layouts: Spec/Info/MonkeysAudio.lean (MAC SDK), parser: Model/Info/MonkeysAudio.lean.
 -/
 import MutagenModel.Proofs.Info.MonkeysAudio
+import MutagenModel.Proofs.Info.Reports
 set_option linter.unusedVariables false
 namespace Mutagen.C05
 open Mutagen Mutagen.Info Mutagen.Info.MonkeysAudio Mutagen.Spec.MonkeysAudio
@@ -17,6 +18,14 @@ descriptor is exactly 52 bytes (`extra = []`); a longer descriptor is misread, s
 theorem ape_info_decodes_partial (h : New) (ok : h.OK) (h52 : h.extra = []) (rest : Bytes) :
     parse (h.build ++ rest) = .ok h.expected :=
   parse_new h ok h52 rest
+
+/-- what `MonkeysAudioInfo` DOES report for a ≥ 3.98 file with ANY descriptor length (nDescriptorBytes = 52 + k): the
+version word, and the six header values read from the fixed file offsets 56..76 — that is, from 4 bytes into
+(expansion bytes ++ APE_HEADER): with k = 0 the real header, otherwise the header shifted by k bytes (for k ≥ 20 only
+expansion bytes). -/
+theorem ape_info_reports (h : New) (ok : h.OK) (rest : Bytes) :
+    parse (h.build ++ rest) = .ok (finish h.version (rawNew (readAt (h.build ++ rest) 0 76))) :=
+  parse_new_reports h ok rest
 
 /-- C05 for Monkey's Audio < 3.98, everything but the sample size: for EVERY old header (any version below
 3980, compression level, flags, channels, rate ≥ 1, frame counts, optional peak level / seek element
